@@ -67,8 +67,16 @@ class C18(props.BaseProp):
                 edges = [(u, v, (0 if (w is not None and r.below(4) == 0) else w)) for (u, v, w) in edges]
             mi = r.pick([1, 2, 5, 100, 100, 100, None])
             te = r.pick([2, 6, 6, 12, None])
-            cases.append({"id": "e%d" % i, "spec": spec, "nodes": nodes, "edges": edges,
-                          "weighted": weighted, "max_iter": mi, "tolexp": te})
+            c = {"id": "e%d" % i, "spec": spec, "nodes": nodes, "edges": edges,
+                 "weighted": weighted, "max_iter": mi, "tolexp": te}
+            if i % 12 == 7:
+                # a multi-step build (oracle only): existing nodes are re-added after the edges - the centrality
+                # must still be that of the stored edges
+                ok_, nds_, _w = cg.effective(c)
+                if ok_ and nds_:
+                    c["readd"] = [nds_[(5 * i + k) % len(nds_)] for k in range(1 + i % 2)]
+                    c["nomodel"] = True
+            cases.append(c)
         return cases
 
     def to_harness(self, c):
@@ -83,7 +91,8 @@ class C18(props.BaseProp):
 
     def case_json(self, c):
         return {"id": c["id"], "spec": list(c["spec"]), "nodes": c["nodes"], "edges": [list(e) for e in c["edges"]],
-                "weighted": bool(c["weighted"]), "max_iter": c["max_iter"], "tolexp": c["tolexp"]}
+                "weighted": bool(c["weighted"]), "max_iter": c["max_iter"], "tolexp": c["tolexp"],
+                "readd": c.get("readd", []), "nomodel": bool(c.get("nomodel"))}
 
     def case_from_json(self, j):
         c = cg.graph_from_json(j)
